@@ -117,9 +117,14 @@ let holds _ case impl =
     (try
       let items = List.map (parse_tok e) (words evpart) in
       let st0 = { Model.ss_chain = [(z_of_int 0, []); (z_of_int (-1), [])]; Model.ss_pool = []; Model.ss_pend = []; Model.ss_low = nat_of_int 2 } in
+      let self_evicted = ref [] and added_ever = ref [] in
       let rec go st items k nmark strict_ok =
         match items with
-        | [] -> if nmark = 0 then "fail no marker delivered" else "ok"
+        | [] -> if nmark = 0 then "fail no marker delivered"
+                else if !self_evicted <> [] then
+                  "fail self-eviction-removed-without-added: " ^ String.concat " " (List.rev !self_evicted) ^
+                  " reported removed by the LimitMempoolSize of the transaction's own acceptance, TransactionAddedToMempool was never sent for it"
+                else "ok"
         | E (ev, h) :: r ->
           let not_announced = (match ev with
             | Model.EvConn (_, _, txs) when not ibd -> List.filter (fun t -> List.exists (fun x -> int_of_z x = int_of_z t) st.Model.ss_pool) txs
@@ -127,6 +132,14 @@ let holds _ case impl =
           if not_announced <> [] then
             Printf.sprintf "fail notification #%d (%s): transaction %s of the connected block is still in the rebuilt mempool (no MempoolTransactionsRemovedForBlock for it, outside initial block download)" k (List.nth (words evpart) k) (tname e (List.hd not_announced))
           else
+          (* the one known deviation: a removal (expiry / sizelimit) of a transaction the subscriber does not hold and that was
+             never reported added -- the strict subscriber rejects it, the tolerant one ignores it *)
+          (match ev, Model.sub_step false st ev with
+           | Model.EvRem (t, (Model.RExpiry | Model.RSizeLimit)), None
+             when not (List.exists (fun x -> int_of_z x = int_of_z t) st.Model.ss_pool) && not (List.mem (int_of_z t) !added_ever) ->
+             self_evicted := (List.nth (words evpart) k) :: !self_evicted
+           | Model.EvAdd t, _ -> added_ever := int_of_z t :: !added_ever
+           | _ -> ());
           (match Model.sub_step true st ev with
            | None -> Printf.sprintf "fail notification #%d (%s) does not describe a possible change of the state rebuilt so far" k (List.nth (words evpart) k)
            | Some st' ->
